@@ -252,7 +252,7 @@ def run(ctx):
     ndiv = len(ctx.divergences)          # (the reproduced leads)
 
     gen_budget = 40000 if quick else 400000
-    nsim, dsim = (60, 14) if quick else (500, 24)
+    nsim, dsim = (60, 14) if quick else (1200, 24)
     with ThreadPoolExecutor(max_workers=ncpu) as ex:
         f_gen = [ex.submit(gen, f'KVIndex.Gen_{tier}.cfg', gen_budget), ex.submit(gen, f'KVIndex.Genurm_{tier}.cfg', gen_budget),
                  ex.submit(gen, f'KVIndex.Genbad_{tier}.cfg', gen_budget)]
